@@ -133,6 +133,11 @@ def _ioapi_case(rng):
         lv = [0] + inner + [64]
         return dict(kind='ioapi', fns=[], c10=dict(src=src, recipes=[], ops=[
             ['setvg', ['%d/64' % x for x in (lv if asc else lv[::-1])]], ['apply', d, fn]]))
+    if d != 'TSTEP' and rng.random() < 0.35:
+        # time steps thinned unevenly first: the time flags do not have the dimension and stay as they are
+        src['nt'] = rng.choice([4, 6])
+        keep = sorted(rng.sample(range(src['nt']), rng.randint(2, 3)))
+        return dict(kind='ioapi', fns=[], c10=dict(src=src, recipes=[], ops=[['slice', [['TSTEP', ['l', keep]]]], ['apply', d, fn]]))
     return dict(kind='ioapi', fns=[], c10=dict(src=src, recipes=[], ops=[['apply', d, fn]]))
 
 
@@ -266,7 +271,7 @@ def _impl_direct(case):
                 from PseudoNetCDF.core._functions import reduce_dim
                 from .. import camx
                 path = os.path.join(camx.tmpdir(), 'c03d_%d_%d.nc' % (os.getpid(), np.random.randint(1 << 30)))
-                pfile.build(case['spec']).save(path, format='NETCDF4_CLASSIC', verbose=0).close()
+                pfile.build(case['spec']).save(path, format=pfile.disk_format(case['spec']), verbose=0).close()
                 f = pnc.pncopen(path, format='netcdf')
                 before = _snap(f)
                 g = reduce_dim(f, '%s,%s' % (case['dim'], case['fn']))
@@ -615,6 +620,14 @@ def _oracle_ioapi(case, res):
     op = case['c10']['ops'][0]
     if not res['states'] or 'err' in res['states'][0]:
         return None
+    # the time flags have none of LAY / ROW / COL: a function along one of those leaves them as they were
+    prev = res['init']
+    for o, stt in zip(case['c10']['ops'], res['states']):
+        if 'err' in stt:
+            break
+        if o[0] == 'apply' and o[1] != 'TSTEP' and prev.get('tflag') != stt['st'].get('tflag'):
+            return 'IOAPI file, %s along %s: TFLAG lacks %s but changed: %s -> %s' % (o[2], o[1], o[1], prev.get('tflag'), stt['st'].get('tflag'))
+        prev = stt['st']
     st = res['states'][0]
     if st['bad']:
         return 'IOAPI file after %s: %s' % (op, '; '.join(st['bad']))
